@@ -189,12 +189,12 @@ is the identity on a stable tree.  The two alternatives are what makes `NV` surv
 whose flag it sets are in no case, or — the tree before it still satisfies the invariant (`prefinal_good`: an explicit
 container keeps an explicit child through `lyd_validate_cases`, because a new node is never removed there) — it sets none. -/
 theorem validate_idempotent_choice (X : SchemaX) (o : VOpts) (t : List DNode)
-    (hq1 : X.q.implicitInnerCase = false) (hq2 : X.q.autodelDirectCase = false)
+    (hq1 : X.q.implicitInnerCase = false) (hq2 : X.q.autodelDirectCase = false) (hq3 : X.q.casesCountDefault = true)
     (hl : KidsLookupOk X) (hw : CaseWf X) (hnp : NoNpContInCase X ∨ (npInvL X.base t ∧ newExplL t))
     (hp : placedCL X X.top t = true) (hh : sheightL X.top ≤ walkFuel X t) :
     (validate X o (validate X o t).tree).tree = (validate X o t).tree ∧
     (validate X o (validate X o t).tree).evs = [] :=
-  validate_idempotent2 X o hq1 hq2 hl hw t hnp hp hh
+  validate_idempotent2 X o hq1 hq2 hq3 hl hw t hnp hp hh
 
 /-- the example schema with choices: `choice o { case a { leaf x; choice i { default d; case d { leaf u { default "9"; } } case e { leaf v; } }
 leaf da { default "9"; } } case b { leaf w; } } container n { choice p { default q; case q { leaf r { default "9"; } } case s { leaf t; } } }` -/
@@ -216,7 +216,7 @@ def Sc : Schema := { modName := "ex7c", nodes := [
   { depth := 3, kind := .leaf, name := "r", dflts := [[57]] },
   { depth := 2, kind := .case, name := "s" },
   { depth := 3, kind := .leaf, name := "t" }] }
-def Xc : SchemaX := { SchemaX.ofSchema Sc with q := Quirks.fixed }
+def Xc : SchemaX := { SchemaX.ofSchema Sc with q := { Quirks.fixed with casesCountDefault := true } }
 /-- a history state: a new `x` of case `a` next to the old `w` of case `b`; in `n` the old default `r` of the default case `q` next to
 a new `t` of case `s` -/
 def tc : List DNode := [.term 2 { new := true } [] [49], .term 10 {} [] [50],
@@ -224,10 +224,10 @@ def tc : List DNode := [.term 2 { new := true } [] [49], .term 10 {} [] [50],
 
 /-- non-vacuity: the hypotheses hold for the example; the first validation removes the old case (`w`), creates the defaults of case
 `a` (`u` of the nested default case, `da`) and removes the leftover default `r` — 4 changes —, the second one does nothing -/
-example : Xc.q.implicitInnerCase = false ∧ Xc.q.autodelDirectCase = false ∧ KidsLookupOk Xc ∧ CaseWf Xc ∧
+example : Xc.q.implicitInnerCase = false ∧ Xc.q.autodelDirectCase = false ∧ Xc.q.casesCountDefault = true ∧ KidsLookupOk Xc ∧ CaseWf Xc ∧
     (NoNpContInCase Xc ∨ (npInvL Xc.base tc ∧ newExplL tc)) ∧ placedCL Xc Xc.top tc = true ∧ sheightL Xc.top ≤ walkFuel Xc tc ∧
     (validate Xc {} tc).evs.map (·.node.sid) = [10, 5, 8, 14] ∧ (validate Xc {} (validate Xc {} tc).tree).evs.length = 0 := by
-  refine ⟨rfl, rfl, lookupOk_of_B Xc (by decide), caseWf_of_B Xc (by decide), Or.inl (noNpContInCase_of_B Xc (by decide)), by decide, by decide,
+  refine ⟨rfl, rfl, rfl, lookupOk_of_B Xc (by decide), caseWf_of_B Xc (by decide), Or.inl (noNpContInCase_of_B Xc (by decide)), by decide, by decide,
     by decide, by decide⟩
 
 /-- **the normal form of validation** (same class and hypotheses as `validate_idempotent_choice`; not the `LYD_VALIDATE_PRESENT`
@@ -237,14 +237,14 @@ children of every inner node: every schema node *in use* has an instance (`wantL
 see `implicit_exact_choice`); no default-flagged node is the leftover of a case that does not exist and is not the default case
 (`NV`); no node carries `LYD_NEW`; and every explicit non-presence container has an explicit child. -/
 theorem validate_normal_form (X : SchemaX) (o : VOpts) (t : List DNode)
-    (hq1 : X.q.implicitInnerCase = false) (hq2 : X.q.autodelDirectCase = false)
+    (hq1 : X.q.implicitInnerCase = false) (hq2 : X.q.autodelDirectCase = false) (hq3 : X.q.casesCountDefault = true)
     (hl : KidsLookupOk X) (hw : CaseWf X) (hnp : NoNpContInCase X ∨ (npInvL X.base t ∧ newExplL t))
     (hp : placedCL X X.top t = true) (hh : sheightL X.top ≤ walkFuel X t) (hpe : (o.present && t.isEmpty) = false) :
     StableTop X o (validate X o t).tree ∧
     (((validate X o t).tree = t ∧ (validate X o t).evs = []) ↔ StableTop X o t) ∧
     (StableTop X o t ↔ (∀ sid, wantL o (hasInst t) X.top sid = true → hasInst t sid = true) ∧ NV X t ∧
       (∀ n ∈ t, n.flags.new = false ∧ StableN X o true n)) :=
-  ⟨validate_stable2 X o hq1 hq2 hl hw t hnp hp hh hpe, validate_fixpoint_iff2 X o hq1 hq2 hl hw t hnp hp hh hpe, StableTop_spec X o t⟩
+  ⟨validate_stable2 X o hq1 hq2 hl hw t hnp hp hh hpe, validate_fixpoint_iff2 X o hq1 hq2 hq3 hl hw t hnp hp hh hpe, StableTop_spec X o t⟩
 
 /-- non-vacuity (schema `Sc`, tree `tc`): the input is not stable (its `x` is new), so the validation changes it -/
 example : (({} : VOpts).present && tc.isEmpty) = false ∧ ¬ StableTop Xc {} tc ∧ (validate Xc {} tc).evs.length = 4 := by
@@ -266,13 +266,15 @@ def S189 : Schema := { modName := "m", nodes := [
   { depth := 5, kind := .container, name := "c2" },
   { depth := 1, kind := .case, name := "b1" },
   { depth := 2, kind := .leaf, name := "w" }] }
-def X189 : SchemaX := { SchemaX.ofSchema S189 with q := Quirks.fixed }
+/-- the variant of the code in which `lyd_validate_cases` takes default-flagged nodes for data of a case (F321 unrepaired): with
+fixes/F321.diff the empty `c2` no longer removes the old case and the witness disappears -/
+def X189 : SchemaX := { SchemaX.ofSchema S189 with q := { Quirks.fixed with casesCountDefault := true } }
 /-- `c` with its old explicit `y`, and the empty `c2` just created with `lyd_new_inner` (new, default) -/
 def t189 : List DNode := [.inner 2 {} [] [.term 5 {} [] [118], .inner 7 { new := true, dflt := true } [] []]]
 
 /-- **full strength, false (finding F189, a genuine defect of the C code; replay: `corpus/valid/F189_np_container_in_case.c`)**:
 without `NoNpContInCase` and without `newExplL` (the invariant `npInvL` alone does not help) a validation need not leave a fixpoint,
-in the repaired variants too.  `lyd_validate_new` passes `c`
+in the repaired variants of F180 / F188 too (the witness needs `casesCountDefault`, the unrepaired F321, of which it is an instance).  `lyd_validate_new` passes `c`
 (explicit) on the top level; then, inside `c`, the new default container `c2` of case `b2` makes `lyd_validate_cases` remove the old
 case (`y`), `c2` itself goes as leftover of a case without explicit data, and `c` — now empty — is flagged default
 (`lyd_np_cont_dflt_set`): the result keeps an empty default container of the non-default, non-selected case `a1`, which the SECOND
